@@ -53,11 +53,11 @@ type parser struct {
 }
 
 func (p *parser) error(n *yaml.Node, m string) {
-	p.errors = append(p.errors, &Error{m, "", n.Line, n.Column, "syntax-check"})
+	p.errors = append(p.errors, errorAt(&Pos{n.Line, n.Column}, "syntax-check", m))
 }
 
 func (p *parser) errorAt(pos *Pos, m string) {
-	p.errors = append(p.errors, &Error{m, "", pos.Line, pos.Col, "syntax-check"})
+	p.errors = append(p.errors, errorAt(pos, "syntax-check", m))
 }
 
 func (p *parser) errorfAt(pos *Pos, format string, args ...interface{}) {
@@ -1399,7 +1399,7 @@ func handleYAMLError(err error) []*Error {
 			l, _ = strconv.Atoi(ss[1])
 		}
 		msg = fmt.Sprintf("could not parse as YAML: %s", msg)
-		return &Error{msg, "", l, 0, "syntax-check"}
+		return errorAt(&Pos{l, 0}, "syntax-check", msg)
 	}
 
 	if te, ok := err.(*yaml.TypeError); ok {
